@@ -267,22 +267,31 @@ structure ProduceOut where
   err : Option Err
   deriving Inhabited
 
+/-- header fields by version: v9 = count uptime unixSeconds sequence sourceId; IPFIX = length exportTime sequence domain -/
+def _root_.Goflow.Netflow.Packet.domain (p : Packet) : Nat := if p.version = 9 then p.hdr.getD 4 0 else p.hdr.getD 3 0
+def _root_.Goflow.Netflow.Packet.seqNum (p : Packet) : Nat := if p.version = 9 then p.hdr.getD 3 0 else p.hdr.getD 2 0
+def _root_.Goflow.Netflow.Packet.baseTime (p : Packet) : Nat := if p.version = 9 then p.hdr.getD 2 0 else p.hdr.getD 1 0
+def _root_.Goflow.Netflow.Packet.uptime (p : Packet) : Nat := if p.version = 9 then p.hdr.getD 1 0 else 0
+
+/-- `if found { AddSamplingRate } else { samplingRate = GetSamplingRate }` -/
+def applyRate (found : Option Nat) (rates : Rates) (key : Nat × Nat) : Nat × Rates :=
+  match found with
+  | some x => (x, rates.add key x)
+  | none => (rates.get key, rates)
+
+def stampNetflow (seq rate dom : Nat) (m : FlowMsg) : FlowMsg :=
+  { m with sequenceNum := seq, samplingRate := rate, observationDomainId := dom }
+
 /-- ProcessMessageNetFlowV9Config / ProcessMessageIPFIXConfig (with a sampling-rate system) -/
 def processNetflow (cfg : Option Config) (p : Packet) (rates : Rates) : ProduceOut :=
-  let version := p.version
-  let (baseTime, uptime, seq, dom) :=
-    if version = 9 then (p.hdr.getD 2 0, p.hdr.getD 1 0, p.hdr.getD 3 0, p.hdr.getD 4 0)
-    else (p.hdr.getD 1 0, 0, p.hdr.getD 2 0, p.hdr.getD 3 0)
   -- v9 passes a nil packet mapper: element 315 is only reachable for version 10
-  match convertRecords cfg version baseTime uptime (dataRecordsOf p.flowSets) with
+  match convertRecords cfg p.version p.baseTime p.uptime (dataRecordsOf p.flowSets) with
   | .error e => ⟨[], rates, some e⟩
   | .ok msgs =>
     match searchSamplingRate (optionRecordsOf p.flowSets) with
     | .error e => ⟨[], rates, some e⟩
     | .ok found =>
-      let (rate, rates') := match found with
-        | some x => (x, rates.add (version, dom) x)
-        | none => (rates.get (version, dom), rates)
-      ⟨msgs.map fun m => { m with sequenceNum := seq, samplingRate := rate, observationDomainId := dom }, rates', none⟩
+      let rr := applyRate found rates (p.version, p.domain)
+      ⟨msgs.map (stampNetflow p.seqNum rr.1 p.domain), rr.2, none⟩
 
 end Goflow.Producer
